@@ -166,6 +166,9 @@ func sighashCmd(args []string) error {
 					break
 				}
 			}
+			if i%2 == 1 {
+				arenaize(g.tx)
+			}
 			for k := 0; k < *per; k++ {
 				// the same object is hashed again after in-place edits of exported fields
 				// (counts unchanged): a digest must depend on the transaction as it is now
@@ -291,5 +294,50 @@ func assignInPlace(tx *bt.Tx, m map[string]interface{}) {
 		if k < len(tx.Outputs) {
 			tx.Outputs[k].Satoshis, tx.Outputs[k].LockingScript = o.Satoshis, o.LockingScript
 		}
+	}
+}
+
+// arenaize re-homes every script of tx in one shared buffer (zero-copy parsers and pooled allocators do this):
+// each script is a sub-slice whose spare capacity is the memory of the scripts that follow it.
+func arenaize(tx *bt.Tx) {
+	var arena []byte
+	type span struct{ a, b int }
+	var spans []span
+	add := func(sc *bscript.Script) {
+		if sc == nil {
+			spans = append(spans, span{-1, -1})
+			return
+		}
+		spans = append(spans, span{len(arena), len(arena) + len(*sc)})
+		arena = append(arena, *sc...)
+	}
+	for _, in := range tx.Inputs {
+		add(in.PreviousTxScript)
+	}
+	for _, in := range tx.Inputs {
+		add(in.UnlockingScript)
+	}
+	for _, o := range tx.Outputs {
+		add(o.LockingScript)
+	}
+	arena = append(arena, bytes.Repeat([]byte{0x77}, 64)...)
+	k := 0
+	view := func() *bscript.Script {
+		sp := spans[k]
+		k++
+		if sp.a < 0 {
+			return nil
+		}
+		sc := bscript.Script(arena[sp.a:sp.b])
+		return &sc
+	}
+	for _, in := range tx.Inputs {
+		in.PreviousTxScript = view()
+	}
+	for _, in := range tx.Inputs {
+		in.UnlockingScript = view()
+	}
+	for _, o := range tx.Outputs {
+		o.LockingScript = view()
 	}
 }
